@@ -642,7 +642,15 @@ class XmlDocument(SubXmlBase):
         if ctx.in_body_doc is None:
             ctx.in_object = [None] * len(body_class._type_info)
         else:
-            ctx.in_object = self.from_element(ctx, body_class, ctx.in_body_doc)
+            try:
+                ctx.in_object = self.from_element(ctx, body_class,
+                                                               ctx.in_body_doc)
+            except RecursionError:
+                # the parser limits how deep a document can go, but values
+                # that refer to each other (soap multi-reference values) are
+                # nested in each other only after it is done.
+                raise ValidationError(None,
+                                        "The document is nested too deeply")
 
             # a nil message element carries no arguments, just like a missing
             # one.
